@@ -187,6 +187,10 @@ class Interp {
     Snap<T> s;
     s.idx = {x.getStartIndex(), x.getEndIndex(), x.size(), (size_t)reinterpret_cast<uintptr_t>(x.getGrid().getData().get())};
     s.vals = grid_points(x.getGrid());
+    // the view through the support's OWN accessors (they may be served from state cached inside the object)
+    for (size_t i = 0; i < x.size(); i++) s.vals.push_back(x[i]);
+    for (const auto &v : x) s.vals.push_back(v);
+    if (!x.empty()) { s.vals.push_back(x.front()); s.vals.push_back(x.back()); s.vals.push_back(x.at(x.size() - 1)); }
     return s;
   }
   template <size_t o>
@@ -238,6 +242,9 @@ class Interp {
     if (!r.empty()) return r;
     size_t a = s.getStartIndex(), b = s.getEndIndex();
     if (!((a == 0 && b == 0) || (a < b && b <= s.getGrid().size()))) return "support window [" + std::to_string(a) + "," + std::to_string(b) + ") is neither empty nor inside its grid of " + std::to_string(s.getGrid().size());
+    for (size_t i = 0; i < s.size() && a + i < s.getGrid().size(); i++)
+      if (!(s[i] == s.getGrid()[a + i]) && (s[i] == s[i])) return "support element " + std::to_string(i) + " is not the grid point " + std::to_string(a + i) + " of its own grid";
+    if (!s.empty() && b <= s.getGrid().size() && ((!(s.front() == s.getGrid()[a]) && s.front() == s.front()) || (!(s.back() == s.getGrid()[b - 1]) && s.back() == s.back()))) return "support front()/back() are not the end points of its window on its own grid";
     if (s.size() != b - a || s.empty() != (a == b) || s.numberOfIntervals() != (b - a >= 2 ? b - a - 1 : 0) || s.containsIntervals() != (b - a >= 2)) return "support size/empty/interval count inconsistent with its window";
     return "";
   }
